@@ -258,7 +258,7 @@ func Main(args []string) int {
 	// contributions to such a proposal could never be refunded; since the repair such ids are refused at creation,
 	// so nothing of this pass is ever accepted - which is why its vacuity guard is off.)
 	if idMode == "" {
-		tmp := filepath.Join(os.TempDir(), fmt.Sprintf("c14-idpass-%d.json", os.Getpid()))
+		tmp := filepath.Join(filepath.Dir(f.Evidence), fmt.Sprintf(".c14-idpass-%d.json", os.Getpid()))
 		cmd := exec.Command(os.Args[0], prop, "-tier", "quick", "-evidence", tmp, "-workers", fmt.Sprint(f.Workers))
 		cmd.Env = append(os.Environ(), "VERIF_C14_ID=underscore", "VERIF_DEPTH=5")
 		outB, _ := cmd.CombinedOutput()
